@@ -79,8 +79,15 @@ Definition unique_ok (d : defn) (o : opts) : bool :=
   validate_pairs (flat_map (fun c => if is_primary_const d c
                                      then map (fun cl => (cl_val cl, c_name c)) (parsable_cells d o c)
                                      else []) (d_consts d)).
+(* a parsable plain-string trait (on a primary line) must not spell the name of another definition *)
+Definition names_ok (d : defn) (o : opts) : bool :=
+  forallb (fun c => negb (is_primary_const d c)
+                    || forallb (fun cl => forallb (fun k => String.eqb (c_name k) (c_name c)
+                                                            || negb (dyn_eqb (cl_val cl) (DStr (c_name k))))
+                                                  (d_consts d))
+                               (parsable_cells d o c)) (d_consts d).
 Definition spec_accepts (d : defn) (o : opts) : bool :=
-  if o_notraits o then true else counts_ok d && unique_ok d o.
+  if o_notraits o then true else counts_ok d && unique_ok d o && names_ok d o.
 
 (* ------------------------------------------------------------------ C04 *)
 Record c04_case := {
@@ -154,6 +161,8 @@ Inductive dfrom :=
    generated Unmarshal* method (false e.g. for YAML null: out of the decoders' reach) *)
 Record doc_obs := {
   do_codec : codec; do_from : dfrom; do_called : bool;
+  do_null : bool;                         (* the JSON document is the literal null: it holds nothing, although
+                                             json.Unmarshal "reads" "" and 0 from it *)
   do_str : option string;                 (* JSON string view | text | yaml node value *)
   do_u64 : option Z; do_i64 : option Z;   (* json.Unmarshal into uint64/int64 | strconv.ParseUint/ParseInt *)
   do_native : list (string * option payload);
@@ -161,7 +170,7 @@ Record doc_obs := {
 
 Definition model_decode (t : tables) (x : doc_obs) : res :=
   match do_codec x with
-  | CJson => res_of (decode_json t {| jv_string := do_str x; jv_u64 := do_u64 x; jv_i64 := do_i64 x;
+  | CJson => res_of (decode_json t {| jv_null := do_null x; jv_string := do_str x; jv_u64 := do_u64 x; jv_i64 := do_i64 x;
                                       jv_native := do_native x |})
   | CText => match do_str x with
              | Some s => res_of (decode_text t {| tv_text := s; tv_native := do_native x |})
@@ -177,7 +186,8 @@ Definition model_decode (t : tables) (x : doc_obs) : res :=
 (* does the document denote the constant cl?  (faithful readings only: the string content,
    the number itself, the value its own unmarshaler produced) *)
 Definition doc_denotes (x : doc_obs) (cl : cell) : bool :=
-  match dval (cl_val cl) with
+  negb (do_null x) &&
+  (match dval (cl_val cl) with
   | PStr s => match do_str x with Some s' => String.eqb s s' | None => false end
   | PInt z => match do_u64 x with Some u => Z.eqb u z | None => false end
               || match do_i64 x with Some i => Z.eqb i z | None => false end
@@ -185,13 +195,14 @@ Definition doc_denotes (x : doc_obs) (cl : cell) : bool :=
   end
   || existsb (fun p => String.eqb (fst p) (dty (cl_val cl))
                        && match snd p with Some q => payload_eqb q (dval (cl_val cl)) | None => false end)
-             (do_native x).
+             (do_native x)).
 
 (* values whose parsable trait cells the document denotes *)
 Definition doc_trait_owners (d : defn) (o : opts) (x : doc_obs) : list Z :=
   map c_val (filter (fun c => existsb (doc_denotes x) (parsable_cells d o c)) (d_consts d)).
 
 Definition doc_name_value (d : defn) (o : opts) (x : doc_obs) : option Z :=
+  if do_null x then None else
   match do_str x with
   | Some s => match name_value (d_consts d) s with
               | Some v => Some v
